@@ -44,6 +44,12 @@ underlier gets another series of the same shape, the used object is bound to ano
 input of a Hedger (compute_hedge / compute_pl / get_input on the renewed and on another derivative) - and is read again at step k + 1, other steps, None: bitwise the value of a
 newly constructed feature object on the current series; every feature incl. barrier, prev_hedge, FeatureList, ModuleOutput; fixed first scenarios (barrier hit before the change
 and not after, and the other way round) for every seed.
+
+shared feature objects that read the HEDGER (III d): ONE list of feature objects with prev_hedge inside (ModuleOutput over prev_hedge, nested ModuleOutput, a PrevHedge
+instance, FeatureList members, a state-independent ModuleOutput next to prev_hedge) handed to two hedgers, after the objects were bound by the caller (.of(derivative[, another
+hedger]), .of(another derivative)) / read through get_input / used by a third hedger; the two hedgers used in turn on the same and on another derivative (compute_hedge /
+compute_pl / compute_portfolio / get_input / compute_loss / price): every answer bitwise that of a fresh hedger with the same parameters holding newly built feature objects on
+the same series; fixed corpus (kind x earlier use) for every seed.
 """
 import copy
 import math
@@ -886,6 +892,92 @@ def check(ctx):
                                  case | {"feature": name, "step": t_}, key=f"feature_history:{change}:{name}",
                                  detail={"got": str(got[1])[:200], "new_object": str(want[1])[:200]})
                         break
+    # ------------------------------------------------------------------ history independence III (d): shared feature OBJECTS with STATE-DEPENDENT members
+    # The feature objects of (b) / (c) that are bound in place (ModuleOutput) had state-independent inputs only.  Here the shared objects read the HEDGER
+    # (prev_hedge): a ModuleOutput over prev_hedge, a ModuleOutput over such a ModuleOutput, a plain PrevHedge instance, the members of a FeatureList, a
+    # state-independent ModuleOutput next to prev_hedge.  ONE list of such objects is handed to two hedgers (same or different parameters); before their first
+    # use the objects may have a history of their own: bound by the caller (`.of(derivative)`, `.of(derivative, another hedger)`, `.of(another derivative)`),
+    # read through Hedger.get_input (binds without a hedger), used by a third hedger on the same / on another derivative.  Then the two hedgers are used in
+    # turn on the same and on another derivative (compute_hedge / compute_pl / compute_portfolio / get_input / compute_loss / price).  Every answer is the one of
+    # a FRESH hedger (copy of the parameters) holding NEWLY built feature objects on the same series (same seed for the operations that simulate), bitwise.
+    # Fixed corpus (every object kind x every earlier use, prev_hedge weights non-zero) for every seed and tier, then random ones; own generator.
+    gd = Gen(f"{ctx.seed}:shared_stateful_feature")
+    SD_KINDS = ["module_output[prev_hedge]", "module_output[module_output[prev_hedge]]", "prev_hedge", "feature_list_members", "module_output[state-independent]+prev_hedge"]
+    SD_BEFORE = ["none", "of(derivative)", "of(derivative, another hedger)", "of(another derivative)", "get_input", "a third hedger hedged the same derivative",
+                 "a third hedger hedged another derivative"]
+    SD_COMP = ["compute_hedge", "compute_pl", "compute_portfolio"]
+    SD_FIXED = dict(kind="linear", w=[[F(1, 2), F(3, 4)]], b=[F(1, 4)], relu=False)
+    SD_CORPUS = [(k_, b_) for k_ in SD_KINDS for b_ in SD_BEFORE]
+    nd = len(SD_CORPUS) + (12 if ctx.tier == "quick" else 300)
+    for it in range(nd):
+        corpus = it < len(SD_CORPUS)
+        sd_kind, sd_before = SD_CORPUS[it] if corpus else (gd.choice(SD_KINDS), gd.choice(SD_BEFORE))
+        sd_mks = [gen_market(gd), gen_market(gd)]
+        sd_ders = [build_derivative(torch, mk_)[0] for mk_ in sd_mks]
+        inner_ms = [SD_FIXED if corpus else gen_linear(gd, 2, 1) for _ in range(2)]
+        same_par = (it % 2 == 0) if corpus else gd.chance(0.5)
+        h_ms = [SD_FIXED if corpus else gen_linear(gd, 2, 1)]
+        h_ms.append(h_ms[0] if same_par else dict(SD_FIXED, b=[F(-1, 4)]) if corpus else gen_linear(gd, 2, 1))
+        third_ms = SD_FIXED if corpus else gen_linear(gd, 2, 1)
+
+        def sd_objs():
+            """newly built feature objects: the inputs of a hedger (two columns)"""
+            if sd_kind == "prev_hedge":
+                return [get_feature("log_moneyness"), get_feature("prev_hedge")]
+            if sd_kind == "feature_list_members":
+                return list(FeatureList(["log_moneyness", "prev_hedge"]).features)
+            if sd_kind.startswith("module_output[state-independent]"):
+                return [ModuleOutput(model_obj(torch, inner_ms[0]), ["log_moneyness", "time_to_maturity"]), get_feature("prev_hedge")]
+            mo_ = ModuleOutput(model_obj(torch, inner_ms[0]), [get_feature("log_moneyness"), "prev_hedge"])
+            if sd_kind == "module_output[prev_hedge]":
+                return [get_feature("log_moneyness"), mo_]
+            return [ModuleOutput(model_obj(torch, inner_ms[1]), ["time_to_maturity", mo_]), get_feature("log_moneyness")]
+        if corpus:
+            seq = [(0, 0, "compute_hedge"), (0, 0, "compute_pl"), (1, 0, "compute_hedge"), (1, 0, "compute_pl"), (0, 0, "compute_pl"), (1, 1, "compute_portfolio"),
+                   (0, 1, "compute_hedge"), (1, 0, "get_input"), (1, 0, "compute_portfolio"), (0, 0, ["price", "compute_loss"][it % 2]), (1, 0, "compute_pl")]
+        else:
+            seq = [(gd.randint(0, 1), gd.choice([0, 0, 1]), gd.choice(SD_COMP + SD_COMP + ["get_input", "compute_loss", "price"])) for _ in range(gd.randint(3, 8))]
+        seq = [(hi, di, op, gd.choice([0, None]) if op == "get_input" else gd.choice([2, 3]), gd.randint(0, 10 ** 6)) for hi, di, op in seq]
+        case = {"shared_objects": sd_kind, "used_before": sd_before, "hedger_models": [str(m_) for m_ in h_ms], "feature_modules": [str(m_) for m_ in inner_ms],
+                "sequence": [s_[:4] for s_ in seq], "markets": [{k: (enc_rat(v) if k in ("spot", "vol", "var") else str(v)) for k, v in mk_.items()} for mk_ in sd_mks]}
+        ctx.case(case, True, tag="shared_stateful_feature")
+        ctx.stats[f"shared_stateful:{sd_kind}"] += 1
+        ctx.stats[f"shared_stateful:before={sd_before}"] += 1
+        ctx.traces += 1
+        shared = sd_objs()
+        h_sh = [Hedger(model_obj(torch, ms_), shared) for ms_ in h_ms]
+        with torch.no_grad():
+            # what the shared objects were used for before the two hedgers get to work
+            if sd_before.startswith("of("):
+                other = None
+                if "another hedger" in sd_before:
+                    other = Hedger(model_obj(torch, third_ms), sd_objs())
+                    other.compute_hedge(sd_ders[0])                       # leaves this hedger's own prev_output
+                for fo in shared:
+                    fo.of(sd_ders[1 if "another derivative" in sd_before else 0], other)
+            elif sd_before == "get_input":
+                call_impl(h_sh[0].get_input, sd_ders[0], 0)
+            elif sd_before.startswith("a third hedger"):
+                call_impl(Hedger(model_obj(torch, third_ms), shared).compute_pl, sd_ders[1 if "another" in sd_before else 0])
+        for i, (hi, di, op, arg, seed) in enumerate(seq):
+            sim = op in ("compute_loss", "price")
+            args_, kw_ = ((sd_ders[di], arg), {}) if op == "get_input" else ((sd_ders[di],), {"n_paths": arg} if sim else {})
+            fresh = Hedger(copy.deepcopy(h_sh[hi].model), sd_objs())
+            outs = []
+            for hh in (h_sh[hi], fresh):
+                torch.manual_seed(seed)
+                with torch.no_grad():
+                    st, v, mut = call_held(f"Hedger.{op}", case | {"step": i}, getattr(hh, op), *args_, watch=[("derivative", sd_ders[di])], simulates=sim, **kw_)
+                if mut and not sim:
+                    ctx.fail(f"Hedger.{op} modified market data in place", case | {"step": i}, key=f"mutation:Hedger.{op}", detail=mut)
+                outs.append((st, v))
+            ctx.stats[f"shared_stateful:{op}:{outs[0][0]}"] += 1
+            if not same_result(*outs):
+                ctx.fail("the result of a hedging operation depends on what the feature OBJECTS among the hedger's inputs (reading the hedger: prev_hedge inside) were "
+                         "bound to / used by before - another hedger sharing them, the caller's .of(...), get_input -: it differs from a fresh hedger with the same "
+                         "parameters holding newly built feature objects on the same series", case | {"step": i, "hedger": hi, "derivative": di, "op": op},
+                         key=f"shared_stateful_feature:{op}", detail={"shared_objects": str(outs[0][1])[:200], "fresh_hedger_new_objects": str(outs[1][1])[:200]})
+                break
     # ------------------------------------------------------------------ history independence IV: the `hedge=` argument has a history too
     # ONE hedger lives through calls with DIFFERENT hedging instruments (default, the underlier passed explicitly, listed derivatives written
     # on the derivative's underlier), including fit(hedge=...) followed by calls with the default; the listed instruments live through
@@ -1365,6 +1457,8 @@ def check(ctx):
              "around every monitored call and every hedger call of the histories; hedgers with parameters in another dtype than the series (0-dim parameter, casting model, parameter-free "
              "model under OCE) in the sweep and as histories V vs a fresh hedger on new instruments; feature-object histories III c (read at steps 0..k / any steps, then series renewed / "
              "object re-bound / deep copy renewed / object handed to a Hedger, read again at k+1, other steps, None vs a newly constructed object; 16 fixed barrier scenarios + random); "
+             "shared feature objects reading the hedger III d (ModuleOutput over prev_hedge / nested / PrevHedge instance / FeatureList members shared by two hedgers after .of(...) / get_input / "
+             "a third hedger used them, on the same and on another derivative, vs a fresh hedger with newly built feature objects; 35 fixed scenarios + random); "
              "every case non-trivial; distinct = sha1 of canonical case")
 
 
